@@ -249,7 +249,7 @@ def cat_tree(  # pylint: disable=too-many-arguments
         tree2.ndata[names.z] -= tree2.node(node2).z - c.z
 
     ns = tree.number_of_nodes()
-    if np.linalg.norm(tree2.node(node2).xyz() - c.xyz()) < EPS:
+    if translate or np.linalg.norm(tree2.node(node2).xyz() - c.xyz()) < EPS:
         remove = [node2 + ns]
         link_to_root = [n.id + ns for n in tree2.node(node2).children()]
     else:
